@@ -285,6 +285,8 @@ def plan(case, arr, root):
     return out
 
 def applicable(case, arr):
+    if arr in SPREAD_ARRS and len(set(case['names'])) != len(case['names']):
+        return False        # one includer per file, found under its own name: not defined for a file named twice
     has_missing = any(p == 'missing' for p in case['place'])
     has_empty = any(not g for g in case['groups'])
     if has_missing and arr in NEEDS_ALL_FILES:
@@ -566,6 +568,16 @@ def gen_case(rng, tier):
                 place[j] = 'missing'; nmiss += 1
     # an absolute include name cannot be expressed independently of the root; use a plain name instead
     names = [nm if nm is not None else 'sub/abs%d.yaml' % j for j, nm in enumerate(names)]
+    # one file named twice (with other files in between): the stream holds its documents twice, whichever way it is given
+    # (seeded change S7-C06: an include list that drops repeated names)
+    # (only files without !path probes: a probe key written twice, once inline and once in its file, has no single expectation)
+    cand = [j for j in range(len(groups) - 1) if groups[j] and not any(str(k).startswith(('pp', 'pq')) for i in groups[j] for k, _ in docs[i]['m'])]
+    if cand and rng.random() < 0.35:
+        j = rng.choice(cand)
+        groups.append(list(range(len(docs), len(docs) + len(groups[j]))))
+        docs.extend(copy.deepcopy(docs[i]) for i in groups[j])
+        n = len(docs)
+        names.append(names[j]); place.append(place[j])
     # the spread layout: one includer per file, each in a directory of its own choice, most of them writing the same name
     ng = len(groups)
     sdirs = [rng.choice(SDIRS) for _ in range(ng)]
